@@ -507,4 +507,99 @@ var propC11Positional = Register(&Prop{ID: "C11", Sub: "positional", Gen: genC11
 
 func TestProp_C11_positional(t *testing.T) { propC11Positional.Check(t) }
 
+// ---------------------------------------------------------------- conflicting paths
+//
+// An update that writes a path and, effectively, one of its ancestors is
+// rejected as a whole (MongoDB: "would create a conflict"). Only pairs in
+// which both writes are certainly effective are generated ($set of a fresh
+// value, $inc, $push of a fresh value), in both orders, inside one operator
+// or across two.
+
+func genC11Conflict(t *rapid.T) bson.D {
+	cfg := gen.Core
+	doc := cfg.Doc(2, 3).Draw(t, "doc")
+	parent := rapid.SampledFrom([]string{"a", "b", "c", "a.b", "d"}).Draw(t, "parent")
+	child := parent + "." + rapid.SampledFrom([]string{"b", "x", "b.c", "x.y"}).Draw(t, "child")
+	kinds := []string{"set", "set", "inc", "push"}
+	k1 := rapid.SampledFrom(kinds).Draw(t, "k1")
+	k2 := rapid.SampledFrom(kinds).Draw(t, "k2")
+	return bson.D{{Key: "doc", Value: doc}, {Key: "parent", Value: parent}, {Key: "child", Value: child}, {Key: "kParent", Value: k1}, {Key: "kChild", Value: k2},
+		{Key: "childFirst", Value: rapid.Bool().Draw(t, "childFirst")}, {Key: "parentDoc", Value: rapid.Bool().Draw(t, "parentDoc")}}
+}
+
+func runC11Conflict(c bson.D, x *Ctx) error {
+	doc := append(bson.D{{Key: "_id", Value: int32(1)}}, asD(getD(c, "doc"))...)
+	parent, child := asS(getD(c, "parent")), asS(getD(c, "child"))
+	mk := func(kind, path, tag string) (string, bson.E) {
+		switch kind {
+		case "inc":
+			return "$inc", bson.E{Key: path, Value: int32(1)}
+		case "push":
+			return "$push", bson.E{Key: path, Value: "fresh-" + tag}
+		}
+		var v interface{} = "fresh-" + tag
+		if tag == "p" && asB(getD(c, "parentDoc")) {
+			v = bson.D{{Key: "fresh", Value: "p"}}
+		}
+		return "$set", bson.E{Key: path, Value: v}
+	}
+	opP, fP := mk(asS(getD(c, "kParent")), parent, "p")
+	opC, fC := mk(asS(getD(c, "kChild")), child, "c")
+	type item struct {
+		op string
+		f  bson.E
+	}
+	items := []item{{opP, fP}, {opC, fC}}
+	if asB(getD(c, "childFirst")) {
+		items = []item{{opC, fC}, {opP, fP}}
+	}
+	upd := bson.D{}
+	for _, it := range items {
+		placed := false
+		for i := range upd {
+			if upd[i].Key == it.op {
+				upd[i].Value = append(upd[i].Value.(bson.D), it.f)
+				placed = true
+			}
+		}
+		if !placed {
+			upd = append(upd, bson.E{Key: it.op, Value: bson.D{it.f}})
+		}
+	}
+	r := lapply(doc, upd, false, nil)
+	if r.panic {
+		return r.err
+	}
+	if r.err == nil {
+		return fmt.Errorf("update %s on %s writes %q and its ancestor %q and was accepted (result %s); conflicting paths must be rejected as a whole", show(upd), show(doc), child, parent, show(r.doc))
+	}
+	// through the driver API: rejected and nothing stored changes
+	client, engine, e := newMemEngine()
+	if e != nil {
+		return fmt.Errorf("harness: %v", e)
+	}
+	defer engine.Close()
+	ctx := context.Background()
+	coll := client.Database("db").Collection("c")
+	if _, e := coll.InsertOne(ctx, doc); e != nil {
+		x.Class("insert-rejected")
+		return nil
+	}
+	_, uerr := coll.UpdateOne(ctx, bson.D{{Key: "_id", Value: int32(1)}}, copyD(upd))
+	if uerr == nil {
+		return fmt.Errorf("UpdateOne with %s was accepted although it writes %q and its ancestor %q", show(upd), child, parent)
+	}
+	got, ferr := findDocs(coll, bson.D{})
+	if ferr != nil || len(got) != 1 || !bytesEq(got[0], doc) {
+		return fmt.Errorf("the rejected update %s changed the stored document: %s -> %v (%v)", show(upd), show(doc), got, ferr)
+	}
+	x.Class("kinds:" + asS(getD(c, "kParent")) + "+" + asS(getD(c, "kChild")))
+	x.NonTrivial()
+	return nil
+}
+
+var propC11Conflict = Register(&Prop{ID: "C11", Sub: "conflict", Gen: genC11Conflict, Run: runC11Conflict})
+
+func TestProp_C11_conflict(t *testing.T) { propC11Conflict.Check(t) }
+
 var _ = options.Update
